@@ -11,7 +11,9 @@ of /repo into a finite table `Prog`:
 * `Row`    : for every function defined in the project, all its callers: `callers` = calls outside any try
              block, `pcallers` = calls inside try blocks (with the handler lists, innermost first).  Virtual
              calls are expanded to all overriders, creating a lambda / taking a function's address is a call.
-* `entries`: `main` (and static initialisation).
+* `entries`: `main`, static initialisation, the analysis API (`CppCheck::check`, `checkBuffer`, `analyseWholeProgram`) and every
+             function with a non-throwing exception specification (`noexcept`, destructors): an exception that tries to
+             leave one of those calls `std::terminate` whatever handlers are further up.
 
 `Cert` is the certificate the translator computes (a fixpoint): for every exception type the set of
 functions the type may propagate out of, as a bit mask over function ids.  `closed` is the decidable
@@ -73,8 +75,9 @@ structure Site where
   fn : Fn
   ty : Ty
   ctx : Ctx
-  /-- 0 = no guard; k > 0 = the translator established guard kind k for this site from the AST
-      (e.g. `m.at(k)` dominated by `m.count(k) > 0`) -/
+  /-- 0 = no guard; k > 0 = the translator recognised guard kind k for this site in the AST (e.g. `m.at(k)` dominated by
+      `m.count(k) > 0`).  The semantics (`Escapes`) does NOT trust it: a guarded site propagates like any other; the
+      containment theorems are stated for `guard = 0` and the guarded sites are listed as assumptions in the evidence. -/
   guard : Nat
   deriving Repr
 
@@ -111,6 +114,13 @@ def decodeRow (n : Nat) : Row :=
   match digits rowDigits n with
   | [] => ⟨digitBase, [], []⟩
   | d :: ds => ⟨d - 1, ds.map (· - 1), []⟩
+
+/-- a row code is well formed: it has a callee digit, no zero digit (a zero digit would decode to caller `0 - 1 = 0`) and
+`rowDigits` digits are enough to consume the whole number (nothing of the code is ignored by the fuel) -/
+def codeWf (n : Nat) : Bool :=
+  match digits rowDigits n with
+  | [] => false
+  | ds => ds.all (fun d => !(Nat.beq d 0)) && Nat.beq (n / digitBase ^ rowDigits) 0
 
 structure Prog where
   hier : Hier
